@@ -114,8 +114,11 @@ class SymBackend:
     """Runs C functions in the LLVM-IR interpreter."""
     symbolic = True
 
-    def __init__(self, irmodule):
+    def __init__(self, irmodule, flatten=False):
         self.m = irmodule
+        # flatten: after every C call put the written-back values into z3's sum-of-monomials normal form, so that
+        # multi-step inline runs carry flat linear forms instead of ever deeper DAGs
+        self.flatten = flatten
 
     def empty(self, n):
         a = np.empty(int(n), dtype=object)
@@ -138,7 +141,11 @@ class SymBackend:
         for (flat, reg) in regions.values():
             for i in range(flat.shape[0]):
                 if 8 * i in reg.cells:
-                    flat[i] = reg.cells[8 * i]
+                    v = reg.cells[8 * i]
+                    if self.flatten and reg.writes and isinstance(v, Sym) and v.c is None:
+                        import z3
+                        v = Sym(z3.simplify(v.t, som=True, sort_sums=True))
+                    flat[i] = v
         return r
 
     def _ptr(self, x, regions):
